@@ -533,7 +533,7 @@ package raft
 //@   requires tail: tailInv(r) && noneAboveTail(r)
 //@   ensures  tail_consistent: aeResp(rpc).Success ==> tailInv(r)
 //@   ensures  tail_consistent_after_failed_store: tailInv(r)
-//@   ensures  none_above_tail: aeResp(rpc).Success ==> noneAboveTail(r)
+//@   ensures  none_above_tail: lastsent(rpc.RespChan).Error == nil ==> noneAboveTail(r)
 //@   ensures  responded: sent(rpc.RespChan) == old(sent(rpc.RespChan)) + 1 && typeis(lastsent(rpc.RespChan).Response, *AppendEntriesResponse)
 //@   ensures  term_inv: r.currentTerm == curTermDurable(r)
 //@   ensures  term_monotone: r.currentTerm >= old(r.currentTerm)
